@@ -1,4 +1,5 @@
 import Proofs.Values
+import Proofs.Rebuild
 import Model.System
 /-!
 # Proofs.System — every reachable system satisfies the replica invariant, and each replica holds
@@ -56,6 +57,52 @@ theorem append_entries {U : List Entry} {l : Log} (I : Inv U l) (pc : Int) (h : 
   exact omSet_of_not_has hnotin
 
 theorem append_hash (l : Log) (pc : Int) (h : Hash) (tag : Nat) : (append l pc h tag).1.hash = h := rfl
+
+
+/-- what the guard of `Op.rebuild` says, and what the rebuilt replica is -/
+theorem rebuild_guard {l : Log} {ents : List Entry}
+    (hg : (ents.all (fun e => l.entries.contains e) && l.entries.all (fun e => ents.contains e)) = true) :
+    (∀ e ∈ ents, e ∈ l.entries) ∧ (∀ e ∈ l.entries, e ∈ ents) := by
+  simp only [Bool.and_eq_true, List.all_eq_true, List.contains_iff_mem] at hg
+  exact hg
+
+theorem rebuild_spec {U : List Entry} (hU : (hashes U).Nodup) {l : Log} (I : Inv U l) (cid : Bytes)
+    {ents : List Entry} (wh : Bool)
+    (hg : (ents.all (fun e => l.entries.contains e) && l.entries.all (fun e => ents.contains e)) = true) :
+    let L := newLog l.id cid l.sortFn ents (if wh then l.heads else [])
+    Inv U L ∧ L.id = l.id ∧ (∀ x, x ∈ L.entries ↔ x ∈ l.entries) ∧ (∀ x, x ∈ L.heads ↔ x ∈ l.heads) ∧ L.sortFn = l.sortFn := by
+  obtain ⟨h1, h2⟩ := rebuild_guard hg
+  have hset : ∀ h, h ∈ hashes ents ↔ h ∈ hashes l.entries := by
+    intro h
+    unfold hashes
+    simp only [List.mem_map]
+    exact ⟨fun ⟨e, he, hx⟩ => ⟨e, h1 e he, hx⟩, fun ⟨e, he, hx⟩ => ⟨e, h2 e he, hx⟩⟩
+  have hheads : (if wh then l.heads else []) = [] ∨
+      ((hashes (if wh then l.heads else [])).Nodup ∧ ∀ x, x ∈ (if wh then l.heads else []) ↔ x ∈ l.heads) := by
+    cases wh
+    · exact Or.inl rfl
+    · exact Or.inr ⟨I.headsNodup, fun _ => Iff.rfl⟩
+  obtain ⟨a, b, c, d⟩ := newLog_rebuilds hU I ents _ cid l.sortFn (fun e he => I.inU e (h1 e he)) hset hheads
+  exact ⟨a, b, c, d, rfl⟩
+
+/-- unfolding of a successful `rebuild` step -/
+theorem rebuild_step {s s' : Sys} {src : Nat} {cid : Bytes} {ents : List Entry} {wh : Bool}
+    (hstep : s.step (.rebuild src cid ents wh) = some s') :
+    ∃ l, s.logs src = some l ∧
+      (ents.all (fun e => l.entries.contains e) && l.entries.all (fun e => ents.contains e)) = true ∧
+      s' = { s with logs := upd s.logs s.n (some (newLog l.id cid l.sortFn ents (if wh then l.heads else []))),
+                    know := upd s.know s.n (s.know src), n := s.n + 1 } := by
+  simp only [Sys.step] at hstep
+  cases hl : s.logs src with
+  | none => rw [hl] at hstep; cases hstep
+  | some l =>
+    rw [hl] at hstep
+    simp only at hstep
+    split at hstep
+    · rename_i hg
+      simp only [Option.some.injEq] at hstep
+      exact ⟨l, rfl, hg, hstep.symm⟩
+    · cases hstep
 
 theorem sysInv_step {s s' : Sys} (I : SysInv s) {op : Op} (hstep : s.step op = some s') : SysInv s' := by
   cases op with
@@ -283,6 +330,50 @@ theorem sysInv_step {s s' : Sys} (I : SysInv s) {op : Op} (hstep : s.step op = s
             rw [hl] at this; cases this
           rw [upd_other _ _ _ _ hne]
           exact I.fresh r' hr' }
+  | rebuild src cid ents wh =>
+    simp only [Sys.step] at hstep
+    cases hl : s.logs src with
+    | none => rw [hl] at hstep; cases hstep
+    | some l =>
+      rw [hl] at hstep
+      simp only at hstep
+      split at hstep
+      · rename_i hg
+        simp only [Option.some.injEq] at hstep
+        subst hstep
+        obtain ⟨hInv, _, hE, _, _⟩ := rebuild_spec I.uni (I.inv src l hl) cid wh hg
+        exact {
+          uni := I.uni
+          inv := by
+            intro r l' hl'
+            dsimp only at hl' ⊢
+            by_cases hr : r = s.n
+            · subst hr
+              rw [upd_same] at hl'
+              cases hl'
+              exact hInv
+            · rw [upd_other _ _ _ _ hr] at hl'
+              exact I.inv r l' hl'
+          know := by
+            intro r l' hl' h
+            dsimp only at hl' ⊢
+            by_cases hr : r = s.n
+            · subst hr
+              rw [upd_same] at hl' ⊢
+              cases hl'
+              rw [I.know src l hl h]
+              unfold hashes
+              simp only [List.mem_map]
+              exact ⟨fun ⟨e, he, hx⟩ => ⟨e, (hE e).mpr he, hx⟩, fun ⟨e, he, hx⟩ => ⟨e, (hE e).mp he, hx⟩⟩
+            · rw [upd_other _ _ _ _ hr] at hl' ⊢
+              exact I.know r l' hl' h
+          fresh := by
+            intro r hr
+            dsimp only at hr ⊢
+            rw [upd_other _ _ _ _ (by omega)]
+            exact I.fresh r (by omega) }
+      · cases hstep
+
 
 theorem sysInv_run : ∀ (ops : List Op) {s s' : Sys}, SysInv s → s.run ops = some s' → SysInv s'
   | [], s, s', I, h => by simp [Sys.run] at h; exact h ▸ I
@@ -401,5 +492,22 @@ theorem step_mono {s s' : Sys} (I : SysInv s) {op : Op} (hstep : s.step op = som
         rw [hl] at hl0; cases hl0
         exact ⟨setIdentity l0 cid, by rw [upd_same], fun x hx => hx, rfl, rfl⟩
       · exact ⟨l0, by rw [upd_other _ _ _ _ hr]; exact hl0, fun x hx => hx, rfl, rfl⟩
+  | rebuild src cid ents wh =>
+    simp only [Sys.step] at hstep
+    cases hl : s.logs src with
+    | none => rw [hl] at hstep; cases hstep
+    | some l =>
+      rw [hl] at hstep
+      simp only at hstep
+      split at hstep
+      · simp only [Option.some.injEq] at hstep
+        subst hstep
+        dsimp only
+        have hr : r0 ≠ s.n := by
+          intro e; subst e
+          have := I.fresh s.n (Nat.le_refl _)
+          rw [hl0] at this; cases this
+        exact ⟨l0, by rw [upd_other _ _ _ _ hr]; exact hl0, fun x hx => hx, rfl, rfl⟩
+      · cases hstep
 
 end Model
